@@ -86,6 +86,11 @@ func (g *gen) add(c *Case) { g.cases = append(g.cases, c) }
 
 func (g *gen) arr(r Val, method, key string, args []Arg, res Val, after []Val) *Case {
 	c := &Case{Kind: "array", Recv: r.Clone(), Method: method, Args: args, Key: key, ExpRes: res, ExpRecv: Val{K: KList, L: after}}
+	for _, a := range args {
+		if a.Cb != nil && a.Cb.Mut {
+			c.NoJS = true
+		}
+	}
 	g.add(c)
 	return c
 }
